@@ -47,21 +47,27 @@ Theorem C16_ranked : forall labels counts fuzzy,
 Proof. exact core_ranked. Qed.
 Print Assumptions C16_ranked.
 
-(* the candidate narrowing and the edit range are NOT covered by these theorems: they are where
-   the recorded finding lives (Tie/C16.v class 1); witnesses through the model: *)
-Example C16_refuted_prefix_key_after_blank :
+(* the candidate narrowing (repaired in /repo): the prefix is what has been typed of the account name
+   up to its last colon, so a name with a blank in it is narrowed by its own prefix (it used to be cut
+   at the last blank: "bank:", which hid the real candidates behind another account's prefix) *)
+Example C16_prefix_key_keeps_blanks :
   let all := [bs "assets:my bank:savings"; bs "bank:fees"] in
   let byp := [(bs "assets:", [bs "assets:my bank:savings"]); (bs "assets:my bank:", [bs "assets:my bank:savings"]);
               (bs "bank:", [bs "bank:fees"])] in
   let content := bs "    assets:my bank:sav" in
-  accounts_for_prefix all byp (extract_account_prefix content 0 22) = [bs "bank:fees"].
-Proof. vm_compute. reflexivity. Qed.
+  extract_account_prefix content 0 22 = bs "assets:my bank:" /\
+  accounts_for_prefix all byp (extract_account_prefix content 0 22) = [bs "assets:my bank:savings"].
+Proof. vm_compute. split; reflexivity. Qed.
 
-(* the edit range (repaired in /repo, fix 54bc582): with the cursor inside a directive keyword the
-   start is the cursor, not the end of the keyword; in payee context inside the date nothing is replaced *)
-Example C16_edit_start_clamped_to_cursor :
-  edit_start (bs "commodity U") 0 4 (determine_context (bs "commodity U") 0 4 0) = Some 4.
-Proof. vm_compute. reflexivity. Qed.
+(* the edit range (repaired in /repo): while the cursor is inside a directive keyword the context is
+   not that of the directive's argument and no edit is computed; behind the keyword the edit starts at
+   the argument; in payee context inside the date nothing is replaced *)
+Example C16_no_argument_context_inside_keyword :
+  determine_context (bs "commodity U") 0 4 0 = CDate /\
+  edit_start (bs "commodity U") 0 4 (determine_context (bs "commodity U") 0 4 0) = None /\
+  determine_context (bs "commodity U") 0 11 0 = CCommodity /\
+  edit_start (bs "commodity U") 0 11 CCommodity = Some 10.
+Proof. vm_compute. repeat split; reflexivity. Qed.
 
 Example C16_payee_edit_inside_date_is_empty :
   edit_start (bs "2024-05-05 ") 0 6 CPayee = Some 6.
